@@ -472,4 +472,7 @@ def clauses(only=None):
              [PE + 'get_temperature_implicit', PE + 'get_geopotential_diff'], rc(partial_sum_lemma, 4), group='pyvc-mat'),
       Clause('canary:geopotential weight matrix is diagonal must fail', 'smt', [PE + 'get_geopotential_weights'], rc(canary_contract, 1), canary=True, group='pyvc-mat'),
   ]
+  for c in out:
+    if 'sparse' in c.name:
+      c.refutation_needs_replay = True       # ghost partial sums: incomplete theory for the solver
   return out if only is None else [c for c in out if any(k in c.name for k in only)]
